@@ -68,6 +68,14 @@ impl Engine for Sinks {
             Tier::Thorough => (8usize, 4u64),
         };
         let mut out = Vec::new();
+        // zero-sized events: every capacity up to 4 (and 16, 17), up to 3 * capacity + 2 writes, a few reads in between
+        for cap in [1usize, 2, 3, 4, 16, 17] {
+            for n in [0, 1, cap, cap + 1, 2 * cap + 1, 3 * cap + 2] {
+                for reads in [0, 1, cap] {
+                    out.push(Case { lines: vec![format!("zst {cap} {n} {reads}")] });
+                }
+            }
+        }
         let alphabet = ["write", "next", "open", "close"];
         for len in 0..=maxlen {
             let total = 4usize.pow(len as u32);
@@ -208,6 +216,35 @@ impl Engine for Sinks {
                     out.nontrivial = true;
                     out.tags.push("stress".into());
                     format!("stress len={}", got.len().min(cap + 1))
+                }
+                (["zst", cap, n, reads], _) => {
+                    // a buffer of zero-sized events (`Output<()>` is common): n writes, `reads` reads in between at the middle,
+                    // then a count of what is left
+                    let (cap, n, reads): (usize, usize, usize) = (cap.parse().unwrap(), n.parse().unwrap(), reads.parse().unwrap());
+                    let mut b: EventBuffer<()> = EventBuffer::with_capacity(cap);
+                    let wr = b.writer();
+                    for _ in 0..n / 2 {
+                        wr.write(());
+                    }
+                    let mut got = 0usize;
+                    for _ in 0..reads {
+                        if b.next().is_some() {
+                            got += 1;
+                        }
+                    }
+                    for _ in n / 2..n {
+                        wr.write(());
+                    }
+                    let left = b.by_ref().take(cap + n + 1).count();
+                    let first = (n / 2).min(cap);
+                    let exp_got = reads.min(first);
+                    let exp_left = (first - exp_got + (n - n / 2)).min(cap);
+                    if got != exp_got || left != exp_left {
+                        out.monitor.push(("C17".into(), format!("an EventBuffer<()> of capacity {cap}: {} writes, {reads} reads (yielded {got}), {} more writes; it then held {left} events, it must hold {exp_left} (at most the most recent `capacity` events)", n / 2, n - n / 2)));
+                    }
+                    out.nontrivial = true;
+                    out.tags.push("zst".into());
+                    format!("zst got={got} left={left}")
                 }
                 (["case", "slot", o], _) => {
                     is_open = *o != "0";
